@@ -3,6 +3,7 @@
 Decides structural identities of the serialisers: component order and failure discipline, Content-Length operand == body
 operand, chunk framing shape, sibling agreement of the fixed-length writers, growth cap of the output buffer.  Byte-exact
 grammar conformance for all sizes is value-level and not decided."""
+import re
 from .. import cfg, lib, facts
 from ..facts import AnalysisBroken, strip_tmpl
 
@@ -144,7 +145,7 @@ def run(ck):
             blk = f.blocks[e.block]
             cur = blk
             hops = 0
-            while (cur.term is None or cur.term.get("k") not in ("if",)) and hops < 3:
+            while (cur.term is None or cur.term.get("k") not in ("if",)) and hops < 10:
                 nx = [s for s in cur.succs if s is not None]
                 if len(nx) != 1:
                     break
@@ -152,7 +153,16 @@ def run(ck):
                 hops += 1
             t = cur.term or {}
             streams = {d_["var"] for d_ in f.events("decl") if "ostream" in (d_.get("type") or "")} | {p_["name"] for p_ in f.params if "ostream" in p_["type"]}
-            tested = t.get("k") == "if" and t.get("neg") and ((t.get("core") or {}).get("v") in streams or (t.get("core") or {}).get("root") in streams)
+            direct = (t.get("core") or {}).get("v") in streams or (t.get("core") or {}).get("root") in streams
+            if not direct and t.get("k") == "if" and not t.get("cmp"):
+                # `if (!ok())` where ok is a local lambda / helper that returns the state of the stream
+                for c_ in f.events("call"):
+                    if c_["k"] == "call" and re.sub(r"\s+", "", c_.get("t") or "") == re.sub(r"\s+", "", (t.get("core") or {}).get("t") or ""):
+                        for g_ in prog.resolve_call(c_):
+                            rs_ = [r_ for r_ in g_.events("return")]
+                            if rs_ and all(any(re.search(r"\b%s\b" % re.escape(sv), r_.get("t") or "") for sv in streams) and "!" not in (r_.get("t") or "") for r_ in rs_):
+                                direct = True
+            tested = t.get("k") == "if" and t.get("neg") and direct
             # nothing else is written between W and the test
             between = [x for x in blk.elems[e.idx + 1:] if comp_of(x) and x is not e] if cur is blk else []
             okf = tested and not between
@@ -205,7 +215,9 @@ def run(ck):
     bufd = [d for d in f.events("decl") if strip_tmpl(d.get("icall") or "") == DSB + "buffer"]
     sb = [a for a in f.events("assign") if strip_tmpl(a["lhs"].get("f") or "") == RW + "sent_bytes_"]
     aw = [e for e in f.events("call") if comp_of(e) == "asyncWrite"]
-    ok = len(bufd) == 1 and len(sb) == 1 and sb[0].get("op") == "+=" and (bufd[0]["var"] + ".size()") in (sb[0]["rhs"].get("t") or "") and aw and aw[0]["args"][1].get("v") == bufd[0]["var"]
+    plain = lambda v_: (v_ or "").split("@")[0]
+    ok = len(bufd) == 1 and len(sb) == 1 and sb[0].get("op") == "+=" and (plain(bufd[0]["var"]) + ".size()") in (sb[0]["rhs"].get("t") or "") and aw and \
+        plain(aw[0]["args"][1].get("v")) == plain(bufd[0]["var"])
     ck.ob("C05-R2", "putOnWire/sent_bytes==buffer-sent", ok, sb[0].loc if sb else f.loc, f, "sent_bytes_ += buffer.size(); asyncWrite(fd, buffer)")
     g = writers["serveFile"]
     # the operand of the Content-Length writer, traced back into serveFile through the pieces it was split into
